@@ -82,7 +82,7 @@ def run_tlc(module, cfg_text, env=None, workers=1, timeout=900, extra=(), xmx='3
     return res
 
 
-_V_RE = re.compile(r'<<"V", ("[^"]*"|-?\d+), "(\w+)", (-?\d+), "([^"]*)">>')
+_V_RE = re.compile(r'<<\s*"V",\s*("[^"]*"|-?\d+),\s*"(\w+)",\s*(-?\d+),\s*"([^"]*)"\s*>>', re.S)
 
 
 def validate(module, traces, tables=None, shards=None, timeout=1800, extra_env=None,
